@@ -713,6 +713,10 @@ def known_findings(ck: Check) -> None:
             from . import c09_order
 
             c09_order.check_ocase(probe, camp, w)
+        elif "lkind" in w:
+            from . import c09_literal
+
+            c09_literal.check_lcase(probe, camp, w)
         else:
             e2e_case(probe, camp, case_of(w), cfg_of(w), w["model"], w.get("opts", {}))
         if probe.failures:
@@ -789,6 +793,10 @@ def run(ck: Check) -> None:
     from . import c09_order  # the reuse / collapse / default-member family and the order of the post-passes of Parser.parse
 
     c09_order.campaigns(ck, quick)
+    from . import c09_literal  # Literal-mode enums in a union with another type: the text surgery of get_optional_type on the rendered hint
+
+    c09_literal.campaigns(ck, quick)
+    ck.search_hooks.append(c09_literal.search_literal)
     ck.search_hooks.append(c09_order.search_order_first)
     ck.search_hooks.append(c09_defaults.search_defaults)
     ck.search_hooks.append(search_enums)
@@ -808,6 +816,10 @@ def replay(ck: Check, path: str) -> int:
         from . import c09_order
 
         c09_order.check_ocase(ck, camp, inp)
+    elif "lkind" in inp:
+        from . import c09_literal
+
+        c09_literal.check_lcase(ck, camp, inp)
     elif "enum" in inp and "model" in inp:
         e2e_case(ck, camp, case_of(inp), cfg_of(inp), inp["model"], inp.get("opts", {}))
     for f in ck.failures:
